@@ -1,10 +1,13 @@
 /-
-Helper lemmas about `splitOffFrontMatter` (Comrak/FrontMatter.lean).
+Helper lemmas about `splitOffFrontMatter` (Comrak/FrontMatter.lean): every text is a line-end-free
+content followed by nothing or by a line ending and more text (`decomp`); on that shape the loop and
+the line splitter unfold by one line (`closeLoop_eof`, `closeLoop_line`, `lines_noEol`,
+`lines_line`); soundness and completeness of the loop by induction on the fuel.
 -/
 import Comrak.FrontMatter
+import Comrak.Lemmas.Feed
 namespace Comrak.FrontMatter
-open Comrak Bytes
-
+open Comrak Bytes Comrak.Feed
 
 theorem take_len_add (X B : Bytes) (k : Nat) : (X ++ B).take (X.length + k) = X ++ B.take k := by
   induction X with
@@ -17,305 +20,574 @@ theorem drop_len_add (X B : Bytes) (k : Nat) : (X ++ B).drop (X.length + k) = B.
   | cons a X ih => simp [Nat.succ_add, ih]
 
 theorem drop_len (X B : Bytes) : (X ++ B).drop X.length = B := by
-  simpa using drop_len_add X B 0
+  simp
 
-theorem isPrefixB_false_of_ne (p : Bytes) (a b : UInt8) (s : Bytes) (h : a ≠ b) :
-    isPrefixB (a :: p) (b :: s) = false := by
-  simp [isPrefixB, h]
+theorem take_len (X B : Bytes) : (X ++ B).take X.length = X := by
+  simp
 
-theorem eolLen_some (t : Bytes) (e : Nat) (h : eolLen t = some e) :
-    ∃ eb, IsEol eb ∧ eb.length = e ∧ t = eb ++ t.drop e := by
-  unfold eolLen at h
-  split at h
-  · rename_i h1
-    obtain ⟨r, hr⟩ := (isPrefixB_iff _ _).mp h1
-    injection h with h; subst h
-    exact ⟨[0x0A], Or.inl rfl, rfl, by subst hr; rfl⟩
-  · split at h
-    · rename_i h1
-      obtain ⟨r, hr⟩ := (isPrefixB_iff _ _).mp h1
-      injection h with h; subst h
-      exact ⟨[0x0D, 0x0A], Or.inr rfl, rfl, by subst hr; rfl⟩
-    · exact absurd h (by simp)
+theorem isLineEnd_false (b : UInt8) (h : isLineEnd b = false) : b ≠ 0x0A ∧ b ≠ 0x0D := by
+  simp [isLineEnd] at h
+  exact h
 
-theorem eolLen_of_eol (eb t : Bytes) (h : IsEol eb) : eolLen (eb ++ t) = some eb.length := by
-  rcases h with rfl | rfl <;> simp [eolLen, isPrefixB]
+theorem isLineEnd_true (b : UInt8) (h : isLineEnd b = true) : b = 0x0A ∨ b = 0x0D := by
+  simpa [isLineEnd] using h
 
-theorem eolLen_none (t : Bytes) (h : eolLen t = none) (eb r : Bytes) (he : IsEol eb) : t ≠ eb ++ r := by
-  intro e
-  rw [e, eolLen_of_eol eb r he] at h
-  exact absurd h (by simp)
+theorem isEol_length_pos (e : Bytes) (h : IsEol e) : 0 < e.length := by
+  rcases h with rfl | rfl | rfl <;> simp
 
-theorem findSub_some (pat x : Bytes) (n : Nat) (h : findSub pat x = some n) :
-    ∃ A B, x = A ++ pat ++ B ∧ A.length = n := by
-  induction x generalizing n with
+theorem isEol_head (e : Bytes) (h : IsEol e) : ∃ b r, e = b :: r ∧ isLineEnd b = true := by
+  rcases h with rfl | rfl | rfl
+  · exact ⟨_, _, rfl, by decide⟩
+  · exact ⟨_, _, rfl, by decide⟩
+  · exact ⟨_, _, rfl, by decide⟩
+
+theorem scanLine_append (c t : Bytes) (hc : noEol c)
+    (ht : t = [] ∨ ∃ b r, t = b :: r ∧ isLineEnd b = true) : scanLine (c ++ t) = (c, t) := by
+  induction c with
   | nil =>
-    simp only [findSub] at h
-    split at h
-    · rename_i hp
-      obtain ⟨r, hr⟩ := (isPrefixB_iff _ _).mp hp
-      injection h with h; subst h
-      exact ⟨[], r, by simpa using hr, rfl⟩
-    · exact absurd h (by simp)
+    rcases ht with rfl | ⟨b, r, rfl, hb⟩
+    · rfl
+    · simp [scanLine, hb]
+  | cons a c ih =>
+    have ha : isLineEnd a = false := hc a (by simp)
+    have hc' : noEol c := fun b hb => hc b (by simp [hb])
+    simp [scanLine, ha, ih hc']
+
+/-- Every text is a line-end-free content followed by nothing or by a line ending and more text. -/
+theorem decomp (rem : Bytes) : ∃ c t, rem = c ++ t ∧ noEol c ∧
+    (t = [] ∨ ∃ e x, IsEol e ∧ Junction e x ∧ t = e ++ x) := by
+  induction rem with
+  | nil => exact ⟨[], [], rfl, by simp [noEol], Or.inl rfl⟩
   | cons b r ih =>
-    simp only [findSub] at h
-    split at h
-    · rename_i hp
-      obtain ⟨t, ht⟩ := (isPrefixB_iff _ _).mp hp
-      injection h with h; subst h
-      exact ⟨[], t, by simpa using ht, rfl⟩
-    · cases hf : findSub pat r with
-      | none => simp [hf] at h
-      | some m =>
-        simp only [hf, Option.map_some, Option.some.injEq] at h
-        obtain ⟨A, B, hx, hl⟩ := ih m hf
-        exact ⟨b :: A, B, by simp [hx], by simp [hl, h]⟩
+    by_cases hb : isLineEnd b = true
+    · refine ⟨[], b :: r, rfl, by simp [noEol], Or.inr ?_⟩
+      rcases isLineEnd_true b hb with rfl | rfl
+      · exact ⟨[0x0A], r, Or.inl rfl, by simp [Junction], rfl⟩
+      · cases r with
+        | nil => exact ⟨[0x0D], [], Or.inr (Or.inr rfl), by simp [Junction], rfl⟩
+        | cons c r' =>
+          by_cases hc : c = 0x0A
+          · subst hc
+            exact ⟨[0x0D, 0x0A], r', Or.inr (Or.inl rfl), by simp [Junction], rfl⟩
+          · exact ⟨[0x0D], c :: r', Or.inr (Or.inr rfl), by simp [Junction, hc], rfl⟩
+    · obtain ⟨c, t, hr, hc, ht⟩ := ih
+      refine ⟨b :: c, t, by simp [hr], ?_, ht⟩
+      intro x hx
+      rcases List.mem_cons.mp hx with rfl | hx
+      · simpa using hb
+      · exact hc x hx
 
-/-- A pattern containing a byte that the text lacks is not found. -/
-theorem findSub_none_of_not_mem (pat x : Bytes) (c : UInt8) (hc : c ∈ pat) (hx : c ∉ x) :
-    findSub pat x = none := by
-  cases h : findSub pat x with
-  | none => rfl
-  | some n =>
-    obtain ⟨A, B, hx', _⟩ := findSub_some pat x n h
-    exact absurd (by rw [hx']; simp [hc]) hx
+theorem lineEndingLen_eol (e x : Bytes) (he : IsEol e) (hj : Junction e x) :
+    lineEndingLen (e ++ x) = e.length := by
+  rcases he with rfl | rfl | rfl
+  · simp [lineEndingLen]
+  · simp [lineEndingLen]
+  · cases x with
+    | nil => simp [lineEndingLen]
+    | cons c r =>
+      have hc : c ≠ 0x0A := by simpa [Junction] using hj
+      simp [lineEndingLen, hc]
 
-theorem findClose_some (d body : Bytes) (n : Nat) (h : findClose d body = some n) :
-    ∃ A B, body = A ++ 0x0A :: d ++ B ∧ A.length = n := by
-  unfold findClose at h
+/-- A text either starts with a line ending or with none. -/
+theorem eol_or_not (x : Bytes) :
+    (lineEndingLen x = 0 ∧ (x = [] ∨ ∃ b r, x = b :: r ∧ isLineEnd b = false)) ∨
+    (∃ e y, IsEol e ∧ Junction e y ∧ x = e ++ y) := by
+  obtain ⟨c, t, hx, hc, ht⟩ := decomp x
+  cases c with
+  | nil =>
+    rcases ht with rfl | h
+    · left; subst hx; exact ⟨rfl, Or.inl rfl⟩
+    · right; obtain ⟨e, y, he, hj, rfl⟩ := h; exact ⟨e, y, he, hj, by simpa using hx⟩
+  | cons b c =>
+    left
+    have hb := hc b (by simp)
+    obtain ⟨h1, h2⟩ := isLineEnd_false b hb
+    subst hx
+    exact ⟨by simp [lineEndingLen, h1, h2], Or.inr ⟨b, c ++ t, rfl, hb⟩⟩
+
+theorem closeLoop_eof (d c : Bytes) (f : Nat) (hc : noEol c) :
+    closeLoop d (f + 1) c = if c = d then some (c, []) else none := by
+  have hs := scanLine_append c [] hc (Or.inl rfl)
+  simp only [List.append_nil] at hs
+  simp [closeLoop, hs, lineEndingLen]
+
+theorem closeLoop_line (d c e x : Bytes) (f : Nat) (hc : noEol c) (he : IsEol e) (hj : Junction e x) :
+    closeLoop d (f + 1) (c ++ e ++ x) =
+      if c = d then some (c ++ e ++ x.take (lineEndingLen x), x.drop (lineEndingLen x))
+      else (closeLoop d f x).map fun p => (c ++ e ++ p.1, p.2) := by
+  have hs : scanLine (c ++ e ++ x) = (c, e ++ x) := by
+    rw [List.append_assoc]
+    apply scanLine_append c (e ++ x) hc
+    obtain ⟨b, r, rfl, hb⟩ := isEol_head e he
+    exact Or.inr ⟨b, r ++ x, rfl, hb⟩
+  have hl := lineEndingLen_eol e x he hj
+  have hpos := isEol_length_pos e he
+  have hne : e.length ≠ 0 := by omega
+  simp only [closeLoop, hs, hl, drop_len, take_len, take_len_add, drop_len_add, hne, if_false]
+  simp
+
+/-! lines -/
+
+theorem rawLines_flag (x : Bytes) (h : x.head? ≠ some 0x0A) :
+    rawLines [] true x = rawLines [] false x := by
+  cases x with
+  | nil => rfl
+  | cons b r =>
+    have hb : b ≠ 0x0A := by simpa using h
+    simp [rawLines, hb]
+
+theorem rawLines_line (cur c e x : Bytes) (hc : noEol c) (he : IsEol e) (hj : Junction e x) :
+    rawLines cur false (c ++ e ++ x) = (cur ++ c) :: rawLines [] false x := by
+  induction c generalizing cur with
+  | nil =>
+    rcases he with rfl | rfl | rfl
+    · simp [rawLines]
+    · simp [rawLines]
+    · have := rawLines_flag x (hj rfl)
+      simp [rawLines, this]
+  | cons b c ih =>
+    obtain ⟨h1, h2⟩ := isLineEnd_false b (hc b (by simp))
+    have hc' : noEol c := fun y hy => hc y (by simp [hy])
+    simp only [List.cons_append, rawLines, h1, h2, if_false]
+    have := ih (cur ++ [b]) hc'
+    simpa using this
+
+theorem rawLines_noEol (cur c : Bytes) (hc : noEol c) :
+    rawLines cur false c = if cur ++ c = [] then [] else [cur ++ c] := by
+  induction c generalizing cur with
+  | nil => simp [rawLines]
+  | cons b c ih =>
+    obtain ⟨h1, h2⟩ := isLineEnd_false b (hc b (by simp))
+    have hc' : noEol c := fun y hy => hc y (by simp [hy])
+    simp only [rawLines, h1, h2, if_false]
+    rw [ih _ hc']
+    simp
+
+theorem lines_line (c e x : Bytes) (hc : noEol c) (he : IsEol e) (hj : Junction e x) :
+    lines (c ++ e ++ x) = c :: lines x := by
+  simpa [lines] using rawLines_line [] c e x hc he hj
+
+theorem lines_noEol (c : Bytes) (hc : noEol c) : lines c = if c = [] then [] else [c] := by
+  simpa [lines] using rawLines_noEol [] c hc
+
+theorem rawLines_head (cur r : Bytes) (cr : Bool) (h : cur ≠ []) :
+    (rawLines cur cr r).head? ≠ some [] := by
+  induction r generalizing cur cr with
+  | nil => simp [rawLines, h]
+  | cons b r ih =>
+    simp only [rawLines]
+    split
+    · split
+      · exact ih cur false h
+      · simpa using h
+    · split
+      · simpa using h
+      · exact ih _ false (by simp)
+
+theorem lines_head_nonblank (x : Bytes) (h : x = [] ∨ ∃ b r, x = b :: r ∧ isLineEnd b = false) :
+    (lines x).head? ≠ some [] := by
+  rcases h with rfl | ⟨b, r, rfl, hb⟩
+  · simp [lines, rawLines]
+  · obtain ⟨h1, h2⟩ := isLineEnd_false b hb
+    simp only [lines, rawLines, h1, h2, if_false]
+    exact rawLines_head _ r false (by simp)
+
+theorem junction_prefix (e a rest : Bytes) (hj : Junction e (a ++ rest)) (ha : a ≠ []) : Junction e a := by
+  intro he
+  have := hj he
+  cases a with
+  | nil => exact absurd rfl ha
+  | cons b a => simpa using this
+
+/-! soundness -/
+
+/-- What `closeLoop` returns. -/
+theorem closeLoop_sound (d : Bytes) (hd : d ≠ []) : ∀ (fuel : Nat) (rem a rest : Bytes),
+    closeLoop d fuel rem = some (a, rest) →
+    rem = a ++ rest ∧ noEol d ∧ lines rem = lines a ++ lines rest ∧
+    ∃ body, d ∉ body ∧
+      ((lines a = body ++ [d] ∧ (lines rest).head? ≠ some []) ∨ lines a = body ++ [d, []]) := by
+  intro fuel
+  induction fuel with
+  | zero => intro rem a rest h; simp [closeLoop] at h
+  | succ f ih =>
+    intro rem a rest h
+    obtain ⟨c, t, hrem, hc, ht⟩ := decomp rem
+    rcases ht with rfl | ⟨e, x, he, hj, rfl⟩
+    · -- last line, unterminated
+      simp only [List.append_nil] at hrem
+      subst hrem
+      rw [closeLoop_eof d _ f hc] at h
+      split at h
+      · rename_i hcd
+        subst hcd
+        simp only [Option.some.injEq, Prod.mk.injEq] at h
+        obtain ⟨rfl, rfl⟩ := h
+        refine ⟨by simp, hc, by simp [lines, rawLines], [], by simp, Or.inl ⟨?_, by simp [lines, rawLines]⟩⟩
+        rw [lines_noEol _ hc]; simp [hd]
+      · exact absurd h (by simp)
+    · have hrem' : rem = c ++ e ++ x := by simp [hrem]
+      subst hrem'
+      rw [closeLoop_line d c e x f hc he hj] at h
+      split at h
+      · rename_i hcd
+        subst hcd
+        simp only [Option.some.injEq, Prod.mk.injEq] at h
+        obtain ⟨rfl, rfl⟩ := h
+        rcases eol_or_not x with ⟨h0, hx⟩ | ⟨e', y, he', hj', rfl⟩
+        · -- no blank line follows
+          have e1 : x.take (lineEndingLen x) = [] := by rw [h0]; rfl
+          have e2 : x.drop (lineEndingLen x) = x := by rw [h0]; rfl
+          rw [e1, e2, List.append_nil]
+          have hl : lines (c ++ e) = [c] := by
+            have := lines_line c e [] hc he (by simp [Junction])
+            simpa [lines, rawLines] using this
+          refine ⟨rfl, hc, ?_, [], by simp, Or.inl ⟨by simpa using hl, lines_head_nonblank x hx⟩⟩
+          rw [lines_line c e x hc he hj, hl]; simp
+        · -- one blank line is absorbed
+          have hl' := lineEndingLen_eol e' y he' hj'
+          rw [hl', take_len, drop_len]
+          have hj2 : Junction e e' := junction_prefix e e' y hj (by
+            intro h; have := isEol_length_pos e' he'; simp [h] at this)
+          have hl : lines (c ++ e ++ e') = [c, []] := by
+            have h1 := lines_line c e e' hc he hj2
+            have h2 := lines_line [] e' [] (by simp [noEol]) he' (by simp [Junction])
+            simp only [List.nil_append, List.append_nil] at h2
+            rw [h1, h2]; simp [lines, rawLines]
+          refine ⟨by simp, hc, ?_, [], by simp, Or.inr (by simpa using hl)⟩
+          have h2 := lines_line [] e' y (by simp [noEol]) he' hj'
+          simp only [List.nil_append] at h2
+          rw [lines_line c e _ hc he hj, h2, hl]; simp
+      · rename_i hcd
+        cases hr : closeLoop d f x with
+        | none => simp [hr] at h
+        | some p =>
+          obtain ⟨a', rest'⟩ := p
+          simp only [hr, Option.map_some, Option.some.injEq, Prod.mk.injEq] at h
+          obtain ⟨rfl, rfl⟩ := h
+          obtain ⟨hx, hnd, hlx, body, hb, hcase⟩ := ih x a' rest' hr
+          have ha' : a' ≠ [] := by
+            intro h0
+            subst h0
+            rcases hcase with ⟨h1, _⟩ | h1 <;> simp [lines, rawLines] at h1
+          have hj' : Junction e a' := junction_prefix e a' rest' (hx ▸ hj) ha'
+          have hla : lines (c ++ e ++ a') = c :: lines a' := lines_line c e a' hc he hj'
+          refine ⟨by simp [hx], hnd, ?_, c :: body, ?_, ?_⟩
+          · rw [lines_line c e x hc he hj, hla, hlx]; simp
+          · simp only [List.mem_cons, not_or]; exact ⟨fun h => hcd h.symm, hb⟩
+          · rcases hcase with ⟨h1, h2⟩ | h1
+            · exact Or.inl ⟨by rw [hla, h1]; simp, h2⟩
+            · exact Or.inr (by rw [hla, h1]; simp)
+
+/-- The splitter, unfolded on a text that starts with the delimiter and a line ending. -/
+theorem split_unfold (s d e x : Bytes) (hs : stripBom s = d ++ e ++ x) (he : IsEol e) (hj : Junction e x) :
+    splitOffFrontMatter s d
+      = (closeLoop d ((e ++ x).length + 1) x).map fun p => (d ++ e ++ p.1, p.2) := by
+  have hpre : isPrefixB d (d ++ e ++ x) = true := by
+    rw [List.append_assoc]; exact isPrefixB_self_append d _
+  have hdrop : (d ++ e ++ x).drop d.length = e ++ x := by
+    rw [List.append_assoc, drop_len]
+  have hl := lineEndingLen_eol e x he hj
+  have hne : e.length ≠ 0 := by have := isEol_length_pos e he; omega
+  simp only [splitOffFrontMatter, hs, hpre, if_true, hdrop, hl, hne, if_false, drop_len, take_len]
+
+/-- A successful split starts with the delimiter and a line ending. -/
+theorem split_some_open (s d : Bytes) (p : Bytes × Bytes) (h : splitOffFrontMatter s d = some p) :
+    ∃ e x, IsEol e ∧ Junction e x ∧ stripBom s = d ++ e ++ x := by
+  unfold splitOffFrontMatter at h
+  simp only [] at h
   split at h
-  · rename_i m hm
-    injection h with h; subst h
-    obtain ⟨A, B, hx, hl⟩ := findSub_some _ _ _ hm
-    exact ⟨A, [0x0D, 0x0A] ++ B, by simp [hx], hl⟩
-  · split at h
-    · rename_i m hm
-      injection h with h; subst h
-      obtain ⟨A, B, hx, hl⟩ := findSub_some _ _ _ hm
-      exact ⟨A, [0x0A] ++ B, by simp [hx], hl⟩
-    · obtain ⟨A, B, hx, hl⟩ := findSub_some _ _ _ h
-      exact ⟨A, B, by simp [hx], hl⟩
+  · rename_i hpre
+    obtain ⟨t, ht⟩ := (isPrefixB_iff _ _).mp hpre
+    rw [ht, drop_len] at h
+    rcases eol_or_not t with ⟨h0, _⟩ | ⟨e, x, he, hj, rfl⟩
+    · simp [h0] at h
+    · exact ⟨e, x, he, hj, by rw [ht]; simp⟩
+  · exact absurd h (by simp)
 
-/-- If `d` is a prefix of `P ++ c :: Q` and does not contain `c`, it is a prefix of `P`. -/
-theorem isPrefixB_of_append_stop (d P Q : Bytes) (c : UInt8) (hc : c ∉ d)
-    (h : isPrefixB d (P ++ c :: Q) = true) : isPrefixB d P = true := by
-  induction d generalizing P with
+/-! completeness -/
+
+theorem closeLoop_complete (d : Bytes) : ∀ (fuel : Nat) (rem : Bytes) (body tail : List Bytes),
+    rem.length < fuel → lines rem = body ++ d :: tail → d ∉ body →
+    (closeLoop d fuel rem).isSome = true := by
+  intro fuel
+  induction fuel with
+  | zero => intro rem body tail h; omega
+  | succ f ih =>
+    intro rem body tail hf hl hb
+    obtain ⟨c, t, hrem, hc, ht⟩ := decomp rem
+    rcases ht with rfl | ⟨e, x, he, hj, rfl⟩
+    · simp only [List.append_nil] at hrem
+      subst hrem
+      rw [closeLoop_eof d _ f hc]
+      by_cases hcd : rem = d
+      · simp [hcd]
+      · exfalso
+        rw [lines_noEol _ hc] at hl
+        split at hl
+        · cases body <;> simp at hl
+        · cases body with
+          | nil => simp at hl; exact hcd hl.1
+          | cons b body => simp at hl
+    · have hrem' : rem = c ++ e ++ x := by simp [hrem]
+      subst hrem'
+      rw [closeLoop_line d c e x f hc he hj]
+      by_cases hcd : c = d
+      · simp [hcd]
+      · simp only [hcd, if_false, Option.isSome_map]
+        rw [lines_line c e x hc he hj] at hl
+        cases body with
+        | nil => simp at hl; exact absurd hl.1 hcd
+        | cons b body =>
+          simp only [List.cons_append, List.cons.injEq] at hl
+          have hlen : x.length < f := by
+            have := isEol_length_pos e he
+            simp only [List.length_append] at hf; omega
+          exact ih x body tail hlen hl.2 (fun hm => hb (by simp [hm]))
+
+theorem first_occ_unique (d : Bytes) : ∀ (body body' tail tail' : List Bytes),
+    body ++ d :: tail = body' ++ d :: tail' → d ∉ body → d ∉ body' → body = body' ∧ tail = tail' := by
+  intro body
+  induction body with
+  | nil =>
+    intro body' tail tail' h _ h2
+    cases body' with
+    | nil => simpa using h
+    | cons b bs => simp at h; exact absurd (by simp [h.1]) h2
+  | cons b bs ih =>
+    intro body' tail tail' h h1 h2
+    cases body' with
+    | nil => simp at h; exact absurd (by simp [h.1]) h1
+    | cons b' bs' =>
+      simp only [List.cons_append, List.cons.injEq] at h
+      obtain ⟨r1, r2⟩ := ih bs' tail tail' h.2 (fun hm => h1 (by simp [hm])) (fun hm => h2 (by simp [hm]))
+      exact ⟨by rw [h.1, r1], r2⟩
+
+theorem first_occ (d : Bytes) (L : List Bytes) (h : d ∈ L) : ∃ body tail, L = body ++ d :: tail ∧ d ∉ body := by
+  induction L with
+  | nil => simp at h
+  | cons l L ih =>
+    by_cases hl : l = d
+    · exact ⟨[], L, by simp [hl], by simp⟩
+    · have hm : d ∈ L := by
+        rcases List.mem_cons.mp h with h | h
+        · exact absurd h.symm hl
+        · exact h
+      obtain ⟨body, tail, hL, hb⟩ := ih hm
+      exact ⟨l :: body, tail, by simp [hL], by simp only [List.mem_cons, not_or]; exact ⟨fun e => hl e.symm, hb⟩⟩
+
+/-! tie to the C08 line splitter -/
+
+theorem nulToFFFD_append (a b : Bytes) : nulToFFFD (a ++ b) = nulToFFFD a ++ nulToFFFD b := by
+  induction a with
+  | nil => rfl
+  | cons x a ih =>
+    simp only [List.cons_append, nulToFFFD]
+    split <;> simp [ih]
+
+theorem nulToFFFD_eq_nil (a : Bytes) : nulToFFFD a = [] ↔ a = [] := by
+  cases a with
+  | nil => simp [nulToFFFD]
+  | cons x a =>
+    simp only [nulToFFFD]
+    split <;> simp [FFFD]
+
+theorem splitLines_eq_rawLines (s cur : Bytes) (cr : Bool) :
+    splitLines (nulToFFFD cur) cr s = (rawLines cur cr s).map nulToFFFD := by
+  induction s generalizing cur cr with
+  | nil =>
+    simp only [splitLines, rawLines, nulToFFFD_eq_nil]
+    split <;> simp
+  | cons b r ih =>
+    by_cases h1 : b = 0x0A
+    · subst h1
+      have h0 := ih [] false
+      simp only [nulToFFFD] at h0
+      cases cr <;> simp [splitLines, rawLines, ih, h0]
+    · by_cases h2 : b = 0x0D
+      · subst h2
+        have h0 := ih [] true
+        simp only [nulToFFFD] at h0
+        simp [splitLines, rawLines, h0]
+      · by_cases h3 : b = 0x00
+        · subst h3
+          have h0 := ih (cur ++ [0x00]) false
+          rw [nulToFFFD_append] at h0
+          simp only [nulToFFFD, List.append_nil, if_true] at h0
+          simp [splitLines, rawLines, h0]
+        · have h0 := ih (cur ++ [b]) false
+          rw [nulToFFFD_append] at h0
+          simp only [nulToFFFD, h3, if_false] at h0
+          simp [splitLines, rawLines, h1, h2, h3, h0]
+
+theorem rawLines_toLf (x cur : Bytes) (cr : Bool) :
+    rawLines cur false (toLf cr x) = rawLines cur cr x := by
+  induction x generalizing cur cr with
+  | nil => simp [toLf, rawLines]
+  | cons b r ih =>
+    by_cases h1 : b = 0x0A
+    · subst h1
+      cases cr <;> simp [toLf, rawLines, ih]
+    · by_cases h2 : b = 0x0D
+      · subst h2; simp [toLf, rawLines, ih]
+      · simp only [toLf, h1, h2, if_false, rawLines]
+        exact ih _ _
+
+theorem toLf_bom (t : Bytes) : toLf false (BOM ++ t) = BOM ++ toLf false t := by
+  simp [BOM, toLf]
+
+theorem isPrefixB_toLf (p s : Bytes) (hp : noEol p) :
+    isPrefixB p (toLf false s) = isPrefixB p s := by
+  induction p generalizing s with
   | nil => simp [isPrefixB]
-  | cons a d ih =>
-    cases P with
-    | nil =>
-      simp only [List.nil_append, isPrefixB, Bool.and_eq_true, beq_iff_eq] at h
-      exact absurd (by simp [h.1]) hc
-    | cons b P =>
-      simp only [List.cons_append, isPrefixB, Bool.and_eq_true, beq_iff_eq] at h ⊢
-      exact ⟨h.1, ih P (fun m => hc (by simp [m])) h.2⟩
+  | cons a p ih =>
+    obtain ⟨h1, h2⟩ := isLineEnd_false a (hp a (by simp))
+    have hp' : noEol p := fun y hy => hp y (by simp [hy])
+    have e1 : (a == (0x0A : UInt8)) = false := beq_eq_false_iff_ne.mpr h1
+    have e2 : (a == (0x0D : UInt8)) = false := beq_eq_false_iff_ne.mpr h2
+    cases s with
+    | nil => simp [toLf, isPrefixB]
+    | cons b s =>
+      by_cases hb1 : b = 0x0A
+      · subst hb1; simp [toLf, isPrefixB, e1]
+      · by_cases hb2 : b = 0x0D
+        · subst hb2; simp [toLf, isPrefixB, e1, e2]
+        · simp [toLf, isPrefixB, hb1, hb2, ih s hp']
 
-theorem isPrefixB_of_isPrefixB_append (d suf x : Bytes) (h : isPrefixB (d ++ suf) x = true) :
-    isPrefixB d x = true := by
-  obtain ⟨t, ht⟩ := (isPrefixB_iff _ _).mp h
-  exact (isPrefixB_iff _ _).mpr ⟨suf ++ t, by simp [ht]⟩
+theorem stripBom_toLf (s : Bytes) : stripBom (toLf false s) = toLf false (stripBom s) := by
+  have hq := isPrefixB_toLf BOM s (by
+    intro b hb; simp [BOM] at hb; rcases hb with rfl | rfl | rfl <;> decide)
+  by_cases hp : isPrefixB BOM s = true
+  · obtain ⟨t, rfl⟩ := (isPrefixB_iff _ _).mp hp
+    simp only [stripBom, hq, hp, if_true]
+    rw [toLf_bom]
+    simp [BOM]
+  · simp only [Bool.not_eq_true] at hp
+    simp [stripBom, hp, hq]
 
-/-- The search for `\n` + delimiter + `suf` runs over a body none of whose lines starts with the
-    delimiter, up to a following stop byte that the delimiter does not contain. -/
-theorem findSub_skip_body (d suf body Q : Bytes) (stop : UInt8) (bol : Bool)
-    (hne : d ≠ []) (hstop : stop ∉ d) (hbody : noLineStartsWith d bol body = true) :
-    findSub (0x0A :: d ++ suf) (body ++ stop :: Q)
-      = (findSub (0x0A :: d ++ suf) (stop :: Q)).map (· + body.length) := by
-  generalize hF : findSub (0x0A :: d ++ suf) (stop :: Q) = F
-  induction body generalizing bol with
-  | nil => cases F <;> simpa using hF
-  | cons c r ih =>
-    simp only [noLineStartsWith, Bool.and_eq_true] at hbody
-    have hrec := ih (c == 0x0A) hbody.2
-    have hnp : isPrefixB (0x0A :: d ++ suf) (c :: r ++ stop :: Q) = false := by
-      by_cases hc : c = 0x0A
-      · subst hc
-        apply Bool.eq_false_iff.mpr
-        intro hp
-        simp only [List.cons_append, isPrefixB, beq_self_eq_true, Bool.true_and] at hp
-        have hp' := isPrefixB_of_isPrefixB_append d suf _ hp
-        have hp'' := isPrefixB_of_append_stop d r Q stop hstop hp'
-        cases r with
-        | nil =>
-          cases d with
-          | nil => exact hne rfl
-          | cons a d => simp [isPrefixB] at hp''
-        | cons c' r' =>
-          have := hbody.2
-          simp only [noLineStartsWith, beq_self_eq_true, Bool.true_and, Bool.and_eq_true,
-            Bool.not_eq_true'] at this
-          rw [this.1] at hp''
-          exact absurd hp'' (by simp)
-      · exact isPrefixB_false_of_ne _ _ _ _ (fun e => hc e.symm)
-    have e1 : findSub (0x0A :: d ++ suf) (c :: r ++ stop :: Q)
-        = (findSub (0x0A :: d ++ suf) (r ++ stop :: Q)).map (· + 1) := by
-      simp only [List.cons_append] at hnp ⊢
-      simp only [findSub, hnp, Bool.false_eq_true, if_false]
-    rw [e1, hrec]
-    cases F <;> simp [Nat.add_assoc]
+/-! line endings counted -/
 
-theorem findSub_self (pat R : Bytes) : findSub pat (pat ++ R) = some 0 := by
-  cases h : pat ++ R with
-  | nil => simp [findSub, ← h, isPrefixB_self_append]
-  | cons b r => simp [findSub, ← h, isPrefixB_self_append]
+theorem countLineEndings_noEol (c : Bytes) (f : Nat) (hc : noEol c) : countLineEndings (f + 1) c = 0 := by
+  have hs := scanLine_append c [] hc (Or.inl rfl)
+  simp only [List.append_nil] at hs
+  simp [countLineEndings, hs]
 
+theorem countLineEndings_line (c e x : Bytes) (f : Nat) (hc : noEol c) (he : IsEol e) (hj : Junction e x) :
+    countLineEndings (f + 1) (c ++ e ++ x) = 1 + countLineEndings f x := by
+  have hs : scanLine (c ++ e ++ x) = (c, e ++ x) := by
+    rw [List.append_assoc]
+    apply scanLine_append c (e ++ x) hc
+    obtain ⟨b, r, rfl, hb⟩ := isEol_head e he
+    exact Or.inr ⟨b, r ++ x, rfl, hb⟩
+  have hl := lineEndingLen_eol e x he hj
+  have hne : e ++ x ≠ [] := by
+    intro h
+    have h2 := isEol_length_pos e he
+    have h3 : (e ++ x).length = 0 := by rw [h]; rfl
+    rw [List.length_append] at h3
+    omega
+  simp only [countLineEndings, hs, hl, drop_len, hne, if_false]
 
-theorem isEol_eol (crlf : Bool) : IsEol (eol crlf) := by
-  cases crlf <;> simp [eol, IsEol]
+/-- The number of line endings of a text that is empty or ends with a line ending is the number
+    of its lines. -/
+theorem countLineEndings_eq_lines : ∀ (fuel : Nat) (s : Bytes), s.length < fuel →
+    (s = [] ∨ ∃ b, s.getLast? = some b ∧ isLineEnd b = true) →
+    countLineEndings fuel s = (lines s).length := by
+  intro fuel
+  induction fuel with
+  | zero => intro s h; omega
+  | succ f ih =>
+    intro s hf hlast
+    obtain ⟨c, t, hs, hc, ht⟩ := decomp s
+    rcases ht with rfl | ⟨e, x, he, hj, rfl⟩
+    · simp only [List.append_nil] at hs
+      subst hs
+      rw [countLineEndings_noEol _ f hc]
+      rcases hlast with rfl | ⟨b, hb, hbe⟩
+      · rfl
+      · exfalso
+        have := hc b (List.mem_of_getLast? hb)
+        rw [this] at hbe
+        exact absurd hbe (by simp)
+    · have hs' : s = c ++ e ++ x := by simp [hs]
+      subst hs'
+      have hxl : x = [] ∨ ∃ b, x.getLast? = some b ∧ isLineEnd b = true := by
+        by_cases hx0 : x = []
+        · exact Or.inl hx0
+        · right
+          rcases hlast with h | ⟨b, hb, hbe⟩
+          · simp at h; exact absurd h.2.2 hx0
+          · rw [List.getLast?_append] at hb
+            cases hg : x.getLast? with
+            | none => exact absurd (List.getLast?_eq_none_iff.mp hg) hx0
+            | some y => exact ⟨b, by simpa [hg] using hb, hbe⟩
+      have hlen : x.length < f := by
+        have := isEol_length_pos e he
+        simp only [List.length_append] at hf; omega
+      rw [countLineEndings_line c e x f hc he hj, lines_line c e x hc he hj, ih x hlen hxl]
+      simp; omega
 
-theorem isPrefixB_snoc_self (x : Bytes) (c : UInt8) (t : Bytes) : isPrefixB (x ++ c :: t) x = false := by
-  induction x with
-  | nil => simp [isPrefixB]
-  | cons a x ih => simp [isPrefixB, ih]
+theorem closeLoop_terminated (d : Bytes) : ∀ (fuel : Nat) (rem a rest : Bytes),
+    closeLoop d fuel rem = some (a, rest) → rest = [] ∨ ∃ a0 e, IsEol e ∧ a = a0 ++ e := by
+  intro fuel
+  induction fuel with
+  | zero => intro rem a rest h; simp [closeLoop] at h
+  | succ f ih =>
+    intro rem a rest h
+    obtain ⟨c, t, hrem, hc, ht⟩ := decomp rem
+    rcases ht with rfl | ⟨e, x, he, hj, rfl⟩
+    · simp only [List.append_nil] at hrem
+      subst hrem
+      rw [closeLoop_eof d _ f hc] at h
+      split at h
+      · simp only [Option.some.injEq, Prod.mk.injEq] at h
+        exact Or.inl h.2.symm
+      · exact absurd h (by simp)
+    · have hrem' : rem = c ++ e ++ x := by simp [hrem]
+      subst hrem'
+      rw [closeLoop_line d c e x f hc he hj] at h
+      split at h
+      · simp only [Option.some.injEq, Prod.mk.injEq] at h
+        obtain ⟨rfl, rfl⟩ := h
+        right
+        rcases eol_or_not x with ⟨h0, _⟩ | ⟨e', y, he', hj', rfl⟩
+        · exact ⟨c, e, he, by rw [h0]; simp⟩
+        · exact ⟨c ++ e, e', he', by rw [lineEndingLen_eol e' y he' hj', take_len]⟩
+      · cases hr : closeLoop d f x with
+        | none => simp [hr] at h
+        | some p =>
+          obtain ⟨a', rest'⟩ := p
+          simp only [hr, Option.map_some, Option.some.injEq, Prod.mk.injEq] at h
+          obtain ⟨rfl, rfl⟩ := h
+          rcases ih x a' rest' hr with h0 | ⟨a0, e', he', rfl⟩
+          · exact Or.inl h0
+          · exact Or.inr ⟨c ++ e ++ a0, e', he', by simp⟩
 
-theorem findSub_cons_ne (pat Y : Bytes) (a b : UInt8) (h : a ≠ b) :
-    findSub (a :: pat) (b :: Y) = (findSub (a :: pat) Y).map (· + 1) := by
-  rw [findSub]
-  simp [isPrefixB, h]
+theorem split_terminated (s d fm rest : Bytes) (h : splitOffFrontMatter s d = some (fm, rest)) :
+    rest = [] ∨ ∃ a0 e, IsEol e ∧ fm = a0 ++ e := by
+  obtain ⟨e, x, he, hj, hs⟩ := split_some_open s d _ h
+  rw [split_unfold s d e x hs he hj] at h
+  cases hr : closeLoop d ((e ++ x).length + 1) x with
+  | none => rw [hr] at h; simp at h
+  | some p =>
+    obtain ⟨a, rest'⟩ := p
+    rw [hr] at h
+    simp only [Option.map_some, Option.some.injEq, Prod.mk.injEq] at h
+    obtain ⟨rfl, rfl⟩ := h
+    rcases closeLoop_terminated d _ x a rest' hr with h0 | ⟨a0, e', he', rfl⟩
+    · exact Or.inl h0
+    · exact Or.inr ⟨d ++ e ++ a0, e', he', by simp⟩
 
-/-- Where the closing delimiter is found (text after the opening line), delimiter followed by a line end. -/
-theorem findClose_complete (d body rest : Bytes) (crlf : Bool)
-    (hne : d ≠ []) (hlf : (0x0A : UInt8) ∉ d) (hcr : (0x0D : UInt8) ∉ d)
-    (hbody : noLineStartsWith d true body = true)
-    (hu : crlf = false → (0x0D : UInt8) ∉ body ∧ (0x0D : UInt8) ∉ rest) :
-    findClose d (body ++ eol crlf ++ d ++ eol crlf ++ rest) = some (body ++ eol crlf).length.pred := by
-  cases crlf with
-  | false =>
-    obtain ⟨hb, hr⟩ := hu rfl
-    have h1 : findSub (0x0A :: d ++ [0x0D, 0x0A]) (body ++ eol false ++ d ++ eol false ++ rest) = none := by
-      apply findSub_none_of_not_mem _ _ 0x0D (by simp)
-      simp [eol, hb, hr, hcr]
-    have h2 : findSub (0x0A :: d ++ [0x0A]) (body ++ eol false ++ d ++ eol false ++ rest) = some body.length := by
-      have e : body ++ eol false ++ d ++ eol false ++ rest = body ++ 0x0A :: (d ++ [0x0A] ++ rest) := by simp [eol]
-      rw [e, findSub_skip_body d [0x0A] body _ 0x0A true hne hlf hbody]
-      have : (0x0A : UInt8) :: (d ++ [0x0A] ++ rest) = (0x0A :: d ++ [0x0A]) ++ rest := by simp
-      rw [this, findSub_self]; simp
-    unfold findClose
-    rw [h1]; dsimp only; rw [h2]; simp [eol]
-  | true =>
-    have h1 : findSub (0x0A :: d ++ [0x0D, 0x0A]) (body ++ eol true ++ d ++ eol true ++ rest) = some (body.length + 1) := by
-      have e : body ++ eol true ++ d ++ eol true ++ rest = body ++ 0x0D :: (0x0A :: (d ++ [0x0D, 0x0A] ++ rest)) := by simp [eol]
-      rw [e, findSub_skip_body d [0x0D, 0x0A] body _ 0x0D true hne hcr hbody]
-      have : (0x0A : UInt8) :: (d ++ [0x0D, 0x0A] ++ rest) = (0x0A :: d ++ [0x0D, 0x0A]) ++ rest := by simp
-      have e2 : (0x0A :: d ++ [0x0D, 0x0A] : Bytes) = 0x0A :: (d ++ [0x0D, 0x0A]) := by simp
-      rw [e2, findSub_cons_ne _ _ 0x0A 0x0D (by decide), ← e2, this, findSub_self]; simp [Nat.add_comm]
-    unfold findClose
-    rw [h1]; simp [eol]
-
-
-/-- Forward direction of `split_cases`, closing delimiter followed by a line end. -/
-theorem split_of_parts (s0 d eb A e2b rest : Bytes) (hE : IsEol eb) (hE2 : IsEol e2b)
-    (hs : stripBom s0 = d ++ eb ++ A ++ 0x0A :: d ++ e2b ++ rest)
-    (hf : findClose d (A ++ 0x0A :: d ++ e2b ++ rest) = some A.length) :
-    splitOffFrontMatter s0 d
-      = some (d ++ eb ++ A ++ 0x0A :: d ++ e2b ++ rest.take ((eolLen rest).getD 0),
-              rest.drop ((eolLen rest).getD 0)) := by
-  unfold splitOffFrontMatter
-  simp only [hs]
-  have hpre : isPrefixB d (d ++ eb ++ A ++ 0x0A :: d ++ e2b ++ rest) = true := by
-    have := isPrefixB_self_append d (eb ++ A ++ 0x0A :: d ++ e2b ++ rest); simpa using this
-  have hd0 : (d ++ eb ++ A ++ 0x0A :: d ++ e2b ++ rest).drop d.length
-      = eb ++ (A ++ 0x0A :: d ++ e2b ++ rest) := by
-    have : d ++ eb ++ A ++ 0x0A :: d ++ e2b ++ rest = d ++ (eb ++ (A ++ 0x0A :: d ++ e2b ++ rest)) := by simp
-    rw [this, drop_len]
-  have hd1 : (d ++ eb ++ A ++ 0x0A :: d ++ e2b ++ rest).drop (d.length + eb.length)
-      = A ++ 0x0A :: d ++ e2b ++ rest := by
-    have : d ++ eb ++ A ++ 0x0A :: d ++ e2b ++ rest = (d ++ eb) ++ (A ++ 0x0A :: d ++ e2b ++ rest) := by simp
-    rw [this, ← List.length_append, drop_len]
-  have hX : d.length + eb.length + (A.length + 1 + d.length) = (d ++ eb ++ A ++ 0x0A :: d).length := by
-    simp only [List.length_append, List.length_cons]; omega
-  have hs2 : d ++ eb ++ A ++ 0x0A :: d ++ e2b ++ rest = (d ++ eb ++ A ++ 0x0A :: d) ++ (e2b ++ rest) := by simp
-  have hlen : (d ++ eb ++ A ++ 0x0A :: d).length ≠ ((d ++ eb ++ A ++ 0x0A :: d) ++ (e2b ++ rest)).length := by
-    have : e2b.length ≥ 1 := by rcases hE2 with rfl | rfl <;> simp
-    simp only [List.length_append] at this ⊢; omega
-  rw [hpre]; simp only [if_true]
-  rw [hd0, eolLen_of_eol eb _ hE]; dsimp only
-  rw [hd1, hf]; dsimp only
-  rw [hX, hs2]
-  simp only [hlen, if_false]
-  rw [drop_len, eolLen_of_eol e2b _ hE2]; dsimp only
-  have hd3 : ((d ++ eb ++ A ++ 0x0A :: d) ++ (e2b ++ rest)).drop ((d ++ eb ++ A ++ 0x0A :: d).length + e2b.length) = rest := by
-    rw [drop_len_add, drop_len]
-  rw [hd3]
-  have ht : ((d ++ eb ++ A ++ 0x0A :: d) ++ (e2b ++ rest)).take
-      ((d ++ eb ++ A ++ 0x0A :: d).length + e2b.length + (eolLen rest).getD 0)
-      = d ++ eb ++ A ++ 0x0A :: d ++ e2b ++ rest.take ((eolLen rest).getD 0) := by
-    rw [Nat.add_assoc, take_len_add, take_len_add]; simp
-  have hdr : ((d ++ eb ++ A ++ 0x0A :: d) ++ (e2b ++ rest)).drop
-      ((d ++ eb ++ A ++ 0x0A :: d).length + e2b.length + (eolLen rest).getD 0)
-      = rest.drop ((eolLen rest).getD 0) := by
-    rw [Nat.add_assoc, drop_len_add, drop_len_add]
-  rw [ht, hdr]
-
-
-theorem findSub_longer (d t : Bytes) (c : UInt8) (hlf : (0x0A : UInt8) ∉ d) :
-    findSub (0x0A :: d ++ c :: t) (0x0A :: d) = none := by
-  have e : (0x0A :: d ++ c :: t : Bytes) = 0x0A :: (d ++ c :: t) := by simp
-  rw [e, findSub]
-  have h1 : isPrefixB (0x0A :: (d ++ c :: t)) (0x0A :: d) = false := by
-    simp [isPrefixB, isPrefixB_snoc_self]
-  simp only [h1, Bool.false_eq_true, if_false]
-  rw [findSub_none_of_not_mem _ d 0x0A (by simp) hlf]; rfl
-
-/-- Closing delimiter at the very end of the input. -/
-theorem findClose_complete_eof (d body : Bytes) (crlf : Bool)
-    (hne : d ≠ []) (hlf : (0x0A : UInt8) ∉ d) (hcr : (0x0D : UInt8) ∉ d)
-    (hbody : noLineStartsWith d true body = true) :
-    findClose d (body ++ eol crlf ++ d) = some (body ++ eol crlf).length.pred := by
-  have hself : findSub (0x0A :: d) (0x0A :: d) = some 0 := by
-    have := findSub_self (0x0A :: d) []; simpa using this
-  cases crlf with
-  | false =>
-    have e : body ++ eol false ++ d = body ++ 0x0A :: d := by simp [eol]
-    have h1 : findSub (0x0A :: d ++ [0x0D, 0x0A]) (body ++ eol false ++ d) = none := by
-      rw [e, findSub_skip_body d [0x0D, 0x0A] body _ 0x0A true hne hlf hbody, findSub_longer d _ _ hlf]; rfl
-    have h2 : findSub (0x0A :: d ++ [0x0A]) (body ++ eol false ++ d) = none := by
-      rw [e, findSub_skip_body d [0x0A] body _ 0x0A true hne hlf hbody, findSub_longer d _ _ hlf]; rfl
-    have h3 : findSub (0x0A :: d) (body ++ eol false ++ d) = some body.length := by
-      have := findSub_skip_body d [] body d 0x0A true hne hlf hbody
-      simp only [List.append_nil] at this
-      rw [e, this, hself]; simp
-    unfold findClose
-    rw [h1]; dsimp only; rw [h2]; dsimp only; rw [h3]; simp [eol]
-  | true =>
-    have e : body ++ eol true ++ d = body ++ 0x0D :: (0x0A :: d) := by simp [eol]
-    have hcons : ∀ suf : Bytes, findSub (0x0A :: d ++ suf) (0x0D :: (0x0A :: d))
-        = (findSub (0x0A :: d ++ suf) (0x0A :: d)).map (· + 1) := by
-      intro suf
-      have e2 : (0x0A :: d ++ suf : Bytes) = 0x0A :: (d ++ suf) := by simp
-      rw [e2, findSub_cons_ne _ _ 0x0A 0x0D (by decide)]
-    have h1 : findSub (0x0A :: d ++ [0x0D, 0x0A]) (body ++ eol true ++ d) = none := by
-      rw [e, findSub_skip_body d [0x0D, 0x0A] body _ 0x0D true hne hcr hbody, hcons, findSub_longer d _ _ hlf]; rfl
-    have h2 : findSub (0x0A :: d ++ [0x0A]) (body ++ eol true ++ d) = none := by
-      rw [e, findSub_skip_body d [0x0A] body _ 0x0D true hne hcr hbody, hcons, findSub_longer d _ _ hlf]; rfl
-    have h3 : findSub (0x0A :: d) (body ++ eol true ++ d) = some (body.length + 1) := by
-      have := findSub_skip_body d [] body (0x0A :: d) 0x0D true hne hcr hbody
-      have hc := hcons []
-      simp only [List.append_nil] at this hc
-      rw [e, this, hc, hself]; simp [Nat.add_comm]
-    unfold findClose
-    rw [h1]; dsimp only; rw [h2]; dsimp only; rw [h3]; simp [eol]
-
-theorem split_of_parts_eof (s0 d eb A : Bytes) (hE : IsEol eb)
-    (hs : stripBom s0 = d ++ eb ++ A ++ 0x0A :: d)
-    (hf : findClose d (A ++ 0x0A :: d) = some A.length) :
-    splitOffFrontMatter s0 d = some (stripBom s0, []) := by
-  unfold splitOffFrontMatter
-  simp only [hs]
-  have hpre : isPrefixB d (d ++ eb ++ A ++ 0x0A :: d) = true := by
-    have := isPrefixB_self_append d (eb ++ A ++ 0x0A :: d); simpa using this
-  have hd0 : (d ++ eb ++ A ++ 0x0A :: d).drop d.length = eb ++ (A ++ 0x0A :: d) := by
-    have : d ++ eb ++ A ++ 0x0A :: d = d ++ (eb ++ (A ++ 0x0A :: d)) := by simp
-    rw [this, drop_len]
-  have hd1 : (d ++ eb ++ A ++ 0x0A :: d).drop (d.length + eb.length) = A ++ 0x0A :: d := by
-    have : d ++ eb ++ A ++ 0x0A :: d = (d ++ eb) ++ (A ++ 0x0A :: d) := by simp
-    rw [this, ← List.length_append, drop_len]
-  have hX : d.length + eb.length + (A.length + 1 + d.length) = (d ++ eb ++ A ++ 0x0A :: d).length := by
-    simp only [List.length_append, List.length_cons]; omega
-  rw [hpre]; simp only [if_true]
-  rw [hd0, eolLen_of_eol eb _ hE]; dsimp only
-  rw [hd1, hf]; dsimp only
-  rw [hX]; simp
+theorem split_line_count (s d fm rest : Bytes) (h : splitOffFrontMatter s d = some (fm, rest))
+    (hr : rest ≠ []) : lineEndings fm = (lines fm).length := by
+  rcases split_terminated s d fm rest h with h0 | ⟨a0, e, he, rfl⟩
+  · exact absurd h0 hr
+  · apply countLineEndings_eq_lines _ _ (Nat.lt_succ_self _)
+    right
+    rcases he with rfl | rfl | rfl
+    · exact ⟨0x0A, by simp, by decide⟩
+    · exact ⟨0x0A, by simp [List.getLast?_append], by decide⟩
+    · exact ⟨0x0D, by simp, by decide⟩
 
 
 end Comrak.FrontMatter
